@@ -231,3 +231,46 @@ func opKind(name string) string {
 	}
 	return name
 }
+
+// SeqsShard enumerates (single-threaded) the sequences of length d over [0,n) that belong to shard sh:
+// the first min(d,3) operations select the shard.
+func SeqsShard(n, d int, sh vk.Shard, deadline time.Time, f func(seq []int)) (complete bool) {
+	pre := d
+	if pre > 3 {
+		pre = 3
+	}
+	total := 1
+	for i := 0; i < pre; i++ {
+		total *= n
+	}
+	seq := make([]int, d)
+	cnt := 0
+	stop := false
+	var rec func(pos int)
+	rec = func(pos int) {
+		if pos == d {
+			cnt++
+			if cnt%256 == 0 && !deadline.IsZero() && time.Now().After(deadline) {
+				stop = true
+			}
+			f(seq)
+			return
+		}
+		for o := 0; o < n && !stop; o++ {
+			seq[pos] = o
+			rec(pos + 1)
+		}
+	}
+	for i := 0; i < total && !stop; i++ {
+		if !sh.Mine(i) {
+			continue
+		}
+		x := i
+		for k := pre - 1; k >= 0; k-- {
+			seq[k] = x % n
+			x /= n
+		}
+		rec(pre)
+	}
+	return !stop
+}
